@@ -1,6 +1,7 @@
 package main
 
 import (
+	"regexp"
 	"fmt"
 	"os"
 	"path/filepath"
@@ -23,6 +24,8 @@ type mutant struct {
 	Fire   []string // rules that must report a non-discharged obligation
 	Silent bool     // behaviour-preserving edit: every rule must stay silent
 	Note   string
+	// Renames are whole-identifier renames applied to every production .go file (old -> new).
+	Renames map[string]string
 }
 
 var corpus []mutant
@@ -56,9 +59,63 @@ type selfResult struct {
 	Msg  string
 }
 
+// applyRenames rewrites whole identifiers in every production source file of the repository.
+func applyRenames(repo string, renames map[string]string, ov map[string][]byte) error {
+	if len(renames) == 0 {
+		return nil
+	}
+	hit := map[string]bool{}
+	err := filepath.Walk(repo, func(path string, info os.FileInfo, err error) error {
+		if err != nil {
+			return err
+		}
+		if info.IsDir() {
+			if strings.HasPrefix(info.Name(), ".") && path != repo {
+				return filepath.SkipDir
+			}
+			return nil
+		}
+		if !strings.HasSuffix(path, ".go") || strings.HasSuffix(path, "_test.go") {
+			return nil
+		}
+		src, ok := ov[path]
+		if !ok {
+			b, err := os.ReadFile(path)
+			if err != nil {
+				return err
+			}
+			src = b
+		}
+		out := string(src)
+		for old, nw := range renames {
+			re := regexp.MustCompile(`\b` + regexp.QuoteMeta(old) + `\b`)
+			if re.MatchString(out) {
+				hit[old] = true
+				out = re.ReplaceAllString(out, nw)
+			}
+		}
+		if out != string(src) {
+			ov[path] = []byte(out)
+		}
+		return nil
+	})
+	if err != nil {
+		return err
+	}
+	for old := range renames {
+		if !hit[old] {
+			return fmt.Errorf("stale corpus entry: identifier %q no longer occurs", old)
+		}
+	}
+	return nil
+}
+
 func runMutant(repo string, m mutant) selfResult {
 	ov, err := applyEdits(repo, m.Edits)
 	if err != nil {
+		return selfResult{m.Name, false, err.Error()}
+	}
+	if err := applyRenames(repo, m.Renames, ov); err != nil {
 		return selfResult{m.Name, false, err.Error()}
 	}
 	p, err := loadProg(LoadConfig{RepoDir: repo, Overlay: ov})
